@@ -17,7 +17,9 @@ def steps(d): return sorted(int(x) for x in os.listdir(d) if x.isdigit()) if os.
 def wait(s):
     if getattr(s, "checkpoint_manager", None) is not None: s.checkpoint_manager.wait_until_finished()
 SOLVERS = {"vi": (VI, dict(gamma=0.95, epsilon=1e-4)), "rvi": (RVI, dict(epsilon=1e-4)), "pvi": (PVI, dict(period=3, gamma=0.95, epsilon=1e-3, clear_value_history_on_convergence=False)),
-           "sa": (SA, dict(gamma=0.95, epsilon=1e-4, max_batch_size=4)), "pi": (PI, dict(gamma=0.95, epsilon=1e-4, max_eval_iter=7))}
+           "sa": (SA, dict(gamma=0.95, epsilon=1e-4, max_batch_size=4)), "pi": (PI, dict(gamma=0.95, epsilon=1e-4, max_eval_iter=7)),
+           # non-default option: every evaluation restarts from the values fixed at construction (they must survive a restore / a second solve() unchanged)
+           "pi_reset": (PI, dict(gamma=0.95, epsilon=1e-4, max_eval_iter=7, reset_values_for_each_policy_eval=True))}
 PROBLEMS = {"forest": lambda: Forest(S=11, p=0.2), "de_moor": lambda: DeMoor(max_demand=4, max_useful_life=2, lead_time=1, max_order_quantity=3),
             "hendrix": lambda: Hendrix(max_useful_life=2, max_order_quantity_a=2, max_order_quantity_b=2, demand_poisson_mean_a=1.0, demand_poisson_mean_b=1.0),
             "mirjalili": lambda: Mirjalili(max_useful_life=2, max_order_quantity=2, max_demand=3, useful_life_at_arrival_distribution_c_0=(1.0,), useful_life_at_arrival_distribution_c_1=(0.5,))}
